@@ -53,7 +53,7 @@ pub fn property(id: &str) -> Option<PropertySpec> {
             id: "C12",
             rule: hist::C12_RULE,
             assumptions: vec![ORACLE, SETUP],
-            checks: vec![Box::new(hist::C12Histories), Box::new(hist::C12EngineMoves), Box::new(hist::C12EngineDriven)],
+            checks: vec![Box::new(hist::C12Histories), Box::new(hist::C12EngineMoves), Box::new(hist::C12EngineDriven), Box::new(hist::C12LongGames)],
         },
         "C16" => PropertySpec {
             id: "C16",
